@@ -19,11 +19,15 @@ HasDot(s) == \E i \in DOMAIN s : s[i] = 46
 Conformant(it, s) ==
     (it.o = <<>> => ~HasDot(it.u) /\ ~HasDot(it.v) /\ ~HasDot(it.d))             \* blank mnemonic: no further period on the line
 Init == stage = 0 /\ items = <<>> /\ order = "value:descr" /\ sec = "Well"
-Next == /\ stage = 0 /\ stage' = 1
-        /\ \E n \in 1..2 : \E its \in [1..n -> Item], ord \in {"value:descr", "descr:value"}, s \in {"Well", "Parameter", "Curves"} :
-              /\ (ord = "descr:value" => s = "Well")
-              /\ \A i \in 1..n : Conformant(its[i], s)
-              /\ items' = its /\ order' = ord /\ sec' = s
+\* two-stage generation (first item, then nothing or a second item) so that TLC's workers share the enumeration;
+\* the invariant is evaluated on the one-item sections (stage 1) and on the two-item sections (stage 2)
+Next == \/ /\ stage = 0 /\ stage' = 1
+           /\ \E it \in Item, ord \in {"value:descr", "descr:value"}, s \in {"Well", "Parameter", "Curves"} :
+                 /\ (ord = "descr:value" => s = "Well")
+                 /\ Conformant(it, s)
+                 /\ items' = <<it>> /\ order' = ord /\ sec' = s
+        \/ /\ stage = 1 /\ stage' = 2 /\ UNCHANGED <<order, sec>>
+           /\ \E it \in Item : Conformant(it, sec) /\ items' = Append(items, it)
 Spec == Init /\ [][Next]_<<items, order, sec, stage>>
 \* variants of the algorithm without the two repairs (D21, D32), to show the theorem is sensitive to them
 PadOld(u, rhs, mw) == mw - Len(u) - Len(rhs)
@@ -35,12 +39,12 @@ LineOf(it, lw, mw) ==
 Expected(it) == [name |-> L!Strip(it.o), unit |-> it.u,
                  value |-> L!Strip(IF order = "value:descr" THEN it.v ELSE it.d),
                  descr |-> L!Strip(IF order = "value:descr" THEN it.d ELSE it.v)]
-ReadsBack == stage = 1 =>
+ReadsBack == stage >= 1 =>
     LET ords == [i \in DOMAIN items |-> order]
         lw == A!LeftWidth(items)  mw == A!MiddleWidth(items, ords)
     IN \A i \in DOMAIN items : RA!AlgoParse(LineOf(items[i], lw, mw), sec) = Expected(items[i])      \* writer algorithm ; reader algorithm
 \* ... and the documented grammar reads the written line the same way (no reliance on reader quirks)
-ReadsBackByGrammar == stage = 1 =>
+ReadsBackByGrammar == stage >= 1 =>
     LET ords == [i \in DOMAIN items |-> order]
         lw == A!LeftWidth(items)  mw == A!MiddleWidth(items, ords)
     IN \A i \in DOMAIN items : L!Parse(LineOf(items[i], lw, mw), sec) = Expected(items[i])
